@@ -26,7 +26,9 @@ def main():
     if r.returncode:
         print("worktree failed", r.stderr)
         return 2
-    out = {"name": name}
+    out = {"name": name, "repo_head": sh("git -C /repo rev-parse --short HEAD").stdout.strip(),
+           "suite_cmd": "cd <scratch worktree> && PYTHONPATH=<wt>/src MPLBACKEND=Agg /venv/bin/python -m pytest -ra -q -p no:cacheprovider "
+                        "--timeout=900 --continue-on-collection-errors -n 8"}
     try:
         sh("cp /repo/src/pylife/rainflow_ext*.so %s/src/pylife/" % wt)
         env = "cd %s && PYTHONPATH=%s/src MPLBACKEND=Agg" % (wt, wt)
